@@ -89,10 +89,14 @@ std::vector<Op> catalogue() {
   return o;
 }
 
-void build(Scene& s, vh::Rng& r, const Op& op, unsigned dt, unsigned ds, bool primed) {
+void build(Scene& s, vh::Rng& r, const Op& op, unsigned dt, unsigned ds, int primed) {
   SU_vector::clear_mem_cache();
-  if (primed) {  // leave blocks of both dimensions in the cache
+  if (primed == 1) {  // leave blocks of both dimensions in the cache
     for (int k = 0; k < 3; k++) { SU_vector p1(dt), p2(ds); (void)p1; (void)p2; }
+  }
+  if (primed == 2) {  // fill the cache of both dimensions completely: the next release bypasses it
+    std::vector<SU_vector> f1, f2;
+    for (int k = 0; k < 36; k++) { f1.emplace_back(dt); f2.emplace_back(ds); }
   }
   s.dt = dt; s.ds = ds;
   s.t0 = rand_vec(r, dt); s.a0 = rand_vec(r, ds); s.b0 = rand_vec(r, ds); s.x0 = rand_vec(r, dt); s.e0 = rand_vec(r, ds);
@@ -138,12 +142,12 @@ void run_C16(vh::Ctx& c) {
   auto ops = catalogue();
   static const unsigned dimpairs[][2] = {{2, 3}, {3, 2}, {4, 6}, {6, 5}, {5, 4}, {3, 3}};
   const int NP = 6;
-  long total = (long)ops.size() * NP * 2;
+  long total = (long)ops.size() * NP * 3;
   vh::run_cases(c, 16, total, [&](long idx, vh::Rng& r0) {
-    const Op& op = ops[idx / (NP * 2)];
-    int pi = (int)((idx / 2) % NP); bool primed = idx % 2;
+    const Op& op = ops[idx / (NP * 3)];
+    int pi = (int)((idx / 3) % NP); int primed = (int)(idx % 3);
     unsigned dt = dimpairs[pi][0], ds = dimpairs[pi][1];
-    std::string base = vh::fmt("%s target dim %u, operand dim %u, cache %s", op.name, dt, ds, primed ? "primed" : "empty");
+    std::string base = vh::fmt("%s target dim %u, operand dim %u, cache %s", op.name, dt, ds, primed == 0 ? "empty" : primed == 1 ? "primed" : "full");
     c.desc(base);
     c.count(std::string("op.") + op.name);
     long live_before_case = ledger::live_array_blocks();
